@@ -698,6 +698,11 @@ _frame_re = re.compile(r'^File "(?P<filepath>.+)", line (?P<lineno>\d+)'
 _se_frame_re = re.compile(r'^File "(?P<filepath>.+)", line (?P<lineno>\d+)')
 _underline_re = re.compile(r'^[~^ ]*$')
 
+
+def _indent(line):
+    return len(line) - len(line.lstrip())
+
+
 # TODO: ParsedException generator over large bodies of text
 
 class ParsedException:
@@ -808,7 +813,8 @@ class ParsedException:
         frames = []
         line_no = start_line
         while True:
-            frame_line = tb_lines[line_no].strip()
+            raw_frame_line = tb_lines[line_no]
+            frame_line = raw_frame_line.strip()
             frame_match = frame_re.match(frame_line)
             if frame_match:
                 frame_dict = frame_match.groupdict()
@@ -819,7 +825,10 @@ class ParsedException:
                     next_line = ''
                 next_line_stripped = next_line.strip()
                 if (
-                        frame_re.match(next_line_stripped) or
+                        # a line indented deeper than the frame line is
+                        # its source, even if that text reads like a frame
+                        (frame_re.match(next_line_stripped) and
+                         _indent(next_line) <= _indent(raw_frame_line)) or
                         # The exception message will not be indented
                         # This check is to avoid overrunning on eval-like
                         # tracebacks where the last frame doesn't have source
